@@ -280,7 +280,7 @@ func c18Units(tier string, seed int64) []Unit {
 
 	// (i-d) floats: interior values - every integer k and k+0.5 inside ranges whose bounds have fractions
 	type fr2 struct{ lo, hi float64 }
-	interior := []fr2{{10.75, 20}, {8.5, 15.25}, {-20, -2.5}, {2.25, 3.5}, {0.3, 7.9}, {-6.75, 9.125}}
+	interior := []fr2{{10.75, 20}, {8.5, 15.25}, {-20, -2.5}, {2.25, 3.5}, {0.3, 7.9}, {-6.75, 9.125}, {128, 255.5}, {1048576, 2097151.5}, {1, 1.9990234375}}
 	if !quick {
 		interior = append(interior, fr2{-100, -2.5}, fr2{33.3, 70.1})
 	}
@@ -308,7 +308,7 @@ func c18Units(tier string, seed int64) []Unit {
 					return
 				}
 				var missing []string
-				for k := math.Ceil(r.lo); k <= r.hi; k++ {
+				for k := math.Ceil(r.lo); k <= r.hi && r.hi-r.lo <= 40; k++ { // wide ranges: only the neighbours of the bound below
 					for _, v := range []float64{k, k + 0.5} {
 						if v < r.lo || v > r.hi {
 							continue
@@ -322,6 +322,22 @@ func c18Units(tier string, seed int64) []Unit {
 						if !set[fmt.Sprint(v)] {
 							missing = append(missing, fmt.Sprint(v))
 						}
+					}
+				}
+				// the two upper neighbours of the lower bound (fraction = minimum + 1, + 2): the last fraction bit must be
+				// reachable. (The lower neighbour of the upper bound needs the answer "sfMax - 1", which is an alphabet word
+				// only when sfMax is all ones; asking for it raised a false alarm and was dropped.)
+				nb := []float64{math.Nextafter(r.lo, math.Inf(1)), math.Nextafter(math.Nextafter(r.lo, math.Inf(1)), math.Inf(1))}
+				if w == 32 {
+					nb = []float64{float64(math.Nextafter32(float32(r.lo), 1e38)), float64(math.Nextafter32(math.Nextafter32(float32(r.lo), 1e38), 1e38))}
+				}
+				for _, v := range nb {
+					key := fmt.Sprint(v)
+					if w == 32 {
+						key = fmt.Sprint(float32(v))
+					}
+					if r.lo > 0 && v > r.lo && v < r.hi && !set[key] { // for a negative bound the neighbour is again "magnitude maximum - 1"
+						missing = append(missing, "neighbour-of-bound "+key)
 					}
 				}
 				c.Outcome(fmt.Sprintf("Float%d[%g,%g] reached %d", w, r.lo, r.hi, len(set)), true)
@@ -388,6 +404,23 @@ func c18Units(tier string, seed int64) []Unit {
 		}
 	}
 	ers = append(ers,
+		er{"Float64Max(0)", func(s int) string { return fmt.Sprint(rapid.Float64Max(0).Example(s)) }, []string{fmt.Sprint(-math.MaxFloat64)}},
+		er{"Float64Min(0)", func(s int) string { return fmt.Sprint(rapid.Float64Min(0).Example(s)) }, []string{fmt.Sprint(math.MaxFloat64)}},
+		er{"Float32Max(0)", func(s int) string { return fmt.Sprint(rapid.Float32Max(0).Example(s)) }, []string{fmt.Sprint(float32(-math.MaxFloat32))}},
+		er{"Float32Min(0)", func(s int) string { return fmt.Sprint(rapid.Float32Min(0).Example(s)) }, []string{fmt.Sprint(float32(math.MaxFloat32))}},
+		er{"Float64()", func(s int) string { return fmt.Sprint(rapid.Float64().Example(s)) }, []string{fmt.Sprint(-math.MaxFloat64), fmt.Sprint(math.MaxFloat64)}},
+		er{"Int64Min(5)", func(s int) string { return fmt.Sprint(rapid.Int64Min(5).Example(s)) }, []string{"5", fmt.Sprint(int64(math.MaxInt64))}},
+		er{"Int64Max(5)", func(s int) string { return fmt.Sprint(rapid.Int64Max(5).Example(s)) }, []string{"5", fmt.Sprint(int64(math.MinInt64)), "0"}},
+		er{"Int16Max(-7)", func(s int) string { return fmt.Sprint(rapid.Int16Max(-7).Example(s)) }, []string{"-7", "-32768"}},
+		er{"Int16Min(-7)", func(s int) string { return fmt.Sprint(rapid.Int16Min(-7).Example(s)) }, []string{"-7", "32767", "0"}},
+		er{"Int8Max(0)", func(s int) string { return fmt.Sprint(rapid.Int8Max(0).Example(s)) }, []string{"0", "-128"}},
+		er{"Int32Min(0)", func(s int) string { return fmt.Sprint(rapid.Int32Min(0).Example(s)) }, []string{"0", "2147483647"}},
+		er{"IntMax(-1)", func(s int) string { return fmt.Sprint(rapid.IntMax(-1).Example(s)) }, []string{"-1", fmt.Sprint(math.MinInt)}},
+		er{"Uint64Min(9)", func(s int) string { return fmt.Sprint(rapid.Uint64Min(9).Example(s)) }, []string{"9", fmt.Sprint(uint64(math.MaxUint64))}},
+		er{"Uint16Max(9)", func(s int) string { return fmt.Sprint(rapid.Uint16Max(9).Example(s)) }, []string{"0", "9"}},
+		er{"Uint32Min(1)", func(s int) string { return fmt.Sprint(rapid.Uint32Min(1).Example(s)) }, []string{"1", "4294967295"}},
+		er{"ByteMin(250)", func(s int) string { return fmt.Sprint(rapid.ByteMin(250).Example(s)) }, []string{"250", "255"}},
+		er{"UintptrMax(3)", func(s int) string { return fmt.Sprint(rapid.UintptrMax(3).Example(s)) }, []string{"0", "3"}},
 		er{"Int8()", func(s int) string { return fmt.Sprint(rapid.Int8().Example(s)) }, []string{"-128", "127", "0"}},
 		er{"Uint16()", func(s int) string { return fmt.Sprint(rapid.Uint16().Example(s)) }, []string{"0", "65535"}},
 		er{"Int32()", func(s int) string { return fmt.Sprint(rapid.Int32().Example(s)) }, []string{"-2147483648", "2147483647", "0"}},
